@@ -30,4 +30,5 @@ void use(AR& a, SA& s, TS& t, MM& m, DT& d)
 	auto ti = t.GetBegin(); ++ti; --ti; (void)ti.operator->();
 	m.Remove(m.Find(1), 0); (void)m.MakeIterator(m.Find(1), 0);
 	auto sel = d.Select(); { auto ri = sel.GetBegin(); ri += 1; (void)*ri; } sel.Remove(0, 1); (void)sel[0]; (void)d[0]; d.Remove(size_t(0)); d.InsertRow(0, c1 = 1); d.Update(size_t(0), d.NewRow());
+	auto mh = d.AddMultiHashIndex(c1); auto hb = d.FindByMultiHash(mh, c1 == 1); { auto hi = hb.GetBegin(); hi += 1; (void)*hi; (void)hb[0]; }   // DataRawMultiHashIterator += / ->, DataRowIterator ->
 }
